@@ -41,6 +41,19 @@ pub fn seeds() -> Vec<String> {
         "<p><img src=/s alt=\"al t\"><img alt=noalt><img src=/s></p>",
         "<dl><dt>t<dd>d<dd><p>e</dl>",
         "<p>e\u{301}e\u{301}e\u{301} \u{200b}z</p>",
+        // a wide character directly followed by combining marks (hard wrap / overflow at width 1)
+        "<p>qa 世\u{301} qb<em>界\u{308}\u{301}</em>y</p>",
+        "<ul><li>世\u{301}</li><li>a界\u{301}</li></ul>",
+        // ordered lists whose last number is one below a power of ten, nested in prefixed blocks
+        "<blockquote><ol start=9><li><a href=\"/1\">qa qb qc</a> qd qe qf</li></ol></blockquote>",
+        "<ul><li><ol start=99><li>qa qb qc qd qe</li></ol></li></ul>",
+        "<ul><li><ol><li>qa</li><li>qb</li><li>qc</li><li>qd</li><li>qe</li><li>qf</li><li>qg</li><li>qh</li><li>qi qj qk ql</li></ol></li></ul>",
+        "<blockquote><ol start=999><li>qa qb qc qd</li></ol></blockquote>",
+        // text ending in white space directly before a block
+        "<p>qa </p><h2>qb</h2><p>qc\n</p><ul><li>qd</li></ul>",
+        // an empty block first
+        "<h2></h2><p>qa qb qc</p>",
+        "<ul><li><p> </p>qa qb</li></ul>",
     ]
     .iter()
     .map(|s| s.to_string())
